@@ -40,3 +40,9 @@ Example ex_history :
          Act 1 1 AAbsent; Act 2 1 AAbsent; Restart; New 12 0 []]))
   = [OUser 5; ODraw 1; ODraw 2; OUser 7; ODraw 3; OUser 3; ODraw 4; ODraw 5; ODraw 7; ODraw 8].
 Proof. vm_compute. reflexivity. Qed.
+
+(* the reuse history is not vacuous: SB2.1 load_from_config twice from one config object, all secrets absent *)
+Example ex_reuse :
+  map (fun e => snd e) (w_slots (run gen_sites gen_closure [Restart; New 3 1 []; Again 0; Again 1]))
+  = [ODraw 1; ODraw 2; ODraw 3; ODraw 4; ODraw 5; ODraw 6; ODraw 7; ODraw 8; ODraw 9; ODraw 10; ODraw 11; ODraw 12].
+Proof. vm_compute. reflexivity. Qed.
